@@ -28,9 +28,9 @@ func (u *Unit) getMem(st *State, key string, elem Sort) Term {
 	// whole-heap havocs are applied lazily, when a key is next touched
 	if !strings.HasPrefix(key, "ghost:") {
 		for st.MemEpoch[key] < len(st.AllHavocs) {
-			pred := st.AllHavocs[st.MemEpoch[key]]
+			h := st.AllHavocs[st.MemEpoch[key]]
 			st.MemEpoch[key]++
-			u.havocKey(st, key, pred)
+			u.applyAllHavoc(st, key, h)
 		}
 	}
 	return st.Mem[key]
